@@ -323,18 +323,14 @@ Proof.
 Qed.
 
 (* association by bytes_eqb, first match *)
-Fixpoint assoc (u : bytes) (tbl : list (bytes * Z)) : option Z :=
-  match tbl with
-  | [] => None
-  | (k, f) :: tbl' => if bytes_eqb u k then Some f else assoc u tbl'
-  end.
+Definition assoc : bytes -> list (bytes * Z) -> option Z := tlookup Z.
 
 Lemma unit_lookup_assoc u tbl : unit_lookup u tbl = assoc u (map (fun p => (nb (fst p), snd p)) tbl).
 Proof. induction tbl as [|[l f] tbl IH]; cbn; auto. now rewrite IH. Qed.
 
-(* the unit table the code uses is the documented one *)
-Lemma unit_table_documented : map (fun p => (nb (fst p), snd p)) c18_duration_units = doc_units.
-Proof. reflexivity. Qed.
+(* the unit table the code uses is the documented one (in whatever order the code tests the units) *)
+Lemma unit_table_documented u : assoc u (map (fun p => (nb (fst p), snd p)) c18_duration_units) = assoc u doc_units.
+Proof. apply (tlookup_same Z Z.eqb Z.eqb_eq); reflexivity. Qed.
 
 Lemma strip_prefix_spec p : forall s r, strip_prefix p s = Some r <-> s = p ++ r.
 Proof.
@@ -366,7 +362,7 @@ Proof.
   - cbn. destruct (nilb ds); reflexivity.
   - destruct (span_of_spec _ _ _ _ S) as (Hb & Hds & Hrest).
     assert (IH' := IH (fun u f H => Hu u f (or_intror H)) body ds rest S).
-    cbn [dur_candidates assoc].
+    unfold assoc. cbn [dur_candidates tlookup]. fold assoc.
     destruct (strip_suffix u body) as [p|] eqn:E.
     + apply strip_suffix_spec in E.
       destruct (all_digits p) eqn:A.
@@ -435,12 +431,7 @@ Definition duration_text (s : bytes) (ns : Z) : Prop :=
                     In (u, f) doc_units /\ ns = decimal ds * f.
 
 Lemma assoc_in u f tbl : assoc u tbl = Some f -> In (u, f) tbl.
-Proof.
-  induction tbl as [|[k g] tbl IH]; cbn; [discriminate|].
-  destruct (bytes_eqb u k) eqn:E.
-  - apply bytes_eqb_eq in E. subst. intros H. inversion H. now left.
-  - intros H. right. auto.
-Qed.
+Proof. apply tlookup_in. Qed.
 
 Lemma doc_units_assoc u f : In (u, f) doc_units -> assoc u doc_units = Some f.
 Proof. cbn. intros H. repeat (destruct H as [H|H]; [inversion H; subst; reflexivity|]). contradiction. Qed.
